@@ -11,7 +11,8 @@ PROP = dict(
         "C05_rule_sound_load_first", "C05_rule_sound_dest_store", "C05_rule_sound_imm_int", "C05_rule_sound_imm_float",
         "C05_rule_sound_fold_int", "C05_rule_sound_fold_float", "C05_rule_sound_pushnil0",
         "C05_peephole1_sound", "C05_peephole2_sound", "C05_peephole3_sound", "C05_fires_sound",
-        "C05_pass_segments", "C05_labels_preserved", "C05_optimize_sound_partial",
+        "C05_pass_segments", "C05_labels_preserved", "C05_pass_sound_block", "C05_chain_sound_block",
+        "C05_pass_label_split", "C05_optimize_label_split", "C05_optimize_sound_partial",
     ],
     harness_bin="c05",
     # exact instruction streams are more than the property fixes: a bare model mismatch is reported as
@@ -51,8 +52,9 @@ PROP = dict(
                "rewrite label-free windows by fired rules, keeping the label sequence. Tied to /repo on every run by exact comparison of "
                "Opt.optimize with the real optimizer on corpus and generated programs, and by optimizer-on/off and literal/variable oracles.",
     level_note="Partial (C05_optimize_sound_partial): the whole-program simulation through jumps, calls and returns is not proved "
-               "(needs the VM model of frames and code addresses); proved are all rule lemmas, Imm consistency, pass structure and label "
-               "preservation. Float arithmetic and printing are parameters; the float folds assume parse∘to_string = id on non-NaN values.",
+               "(needs the VM model of frames and code addresses); proved are all rule lemmas, Imm consistency, pass structure, soundness of a "
+               "pass and of the fixpoint on every label-free block entered at its start, label preservation and independence of the blocks "
+               "a label delimits. Float arithmetic and printing are parameters; the float folds assume parse∘to_string = id on non-NaN values.",
     technique="Lean 4 theorems (symbolic execution of windows over an abstract stack machine, induction over the pass) + differential "
               "correspondence of the transliterated optimizer against the real one + implementation-vs-implementation oracles",
     timeout=3000,
